@@ -191,6 +191,12 @@ func runC03(c *eng.Ctx) {
 	// ---- 1/2/3. one atomic install; both input levels ---------------------------------------------------------------------
 	c.Rule("ORDER", cjT+".installCompactionResults{one commit}", func() { installOneCommit(c) })
 
+	// ---- 3b. the inputs reach the merge in ascending key order (rule shared with C15) ------------------------------------------------
+	c.Rule("PASS", "kv/table.mergedIterator.HasNext{heap re-established}", func() { mergedIteratorHeap(c) })
+
+	// ---- 3c. after a compaction a reader still finds every file whose range holds the key (rule shared with C15 / C02) -------------
+	c.Rule("GUARD", "kv/version.version.FindFiles{inclusive}", func() { findFilesInclusive(c) })
+
 	// ---- 4. the merge loop -------------------------------------------------------------------------------------------------------
 	c.Rule("PASS", cjT+".doMerge{no value dropped}", func() {
 		f := c.Fn(cjT + ".doMerge")
